@@ -62,6 +62,8 @@ enum point_id : uint32_t {
     P_CACHE_EVICT, P_CACHE_REFILL,
     // io
     P_EPOLL_EVENT,
+    // thread/thread.cpp (added later; kept at the end so that earlier ids do not move)
+    P_SWITCH_BEFORE_SAVE,           // switch_context: run-queue lock released, context of `from` not saved yet
     P_MAX = 64
 };
 
